@@ -336,7 +336,8 @@ def _helper_kind(fn: ast.FunctionDef) -> Optional[str]:
     body = flat(body_without_docstring(fn))
     if not body or len(body) > 40:
         return None
-    if fn.args.vararg or fn.args.kwarg or fn.decorator_list:
+    static = [d for d in fn.decorator_list if isinstance(d, ast.Name) and d.id == "staticmethod"]
+    if fn.args.vararg or fn.args.kwarg or len(fn.decorator_list) != len(static):
         return None
     if any(isinstance(n, (ast.Yield, ast.YieldFrom, ast.Await)) for n in ast.walk(fn)):
         return None
@@ -398,12 +399,18 @@ def _inline_helpers(prog: Program, cls: ClassInfo, fn: ast.FunctionDef, exclude:
         return
     methods = prog.all_methods(cls)
 
+    class_names = {c.name for c in prog.mro(cls)} | {"self", "cls"}
+
     def helper_of(call: ast.AST):
         if isinstance(call, ast.Call) and isinstance(call.func, ast.Attribute) and isinstance(call.func.value, ast.Name) \
-                and call.func.value.id == "self" and call.func.attr.startswith("_") and not call.func.attr.startswith("__") \
+                and call.func.value.id in class_names and call.func.attr.startswith("_") and not call.func.attr.startswith("__") \
                 and call.func.attr in methods and call.func.attr not in exclude and call.func.attr != fn.name:
             owner, h = methods[call.func.attr]
             if owner.is_abstract_method(call.func.attr):
+                return None
+            is_static = any(isinstance(d, ast.Name) and d.id == "staticmethod" for d in h.decorator_list)
+            # a static helper may be called through the class or the instance; an instance method only through self
+            if not is_static and call.func.value.id != "self":
                 return None
             # overridden somewhere below the class: the callee is not unique, leave the call
             kind = _helper_kind(h)
@@ -579,9 +586,58 @@ def _merge_adjacent(stmts: List[ast.stmt], counts: Dict[str, int], loads: Dict[s
     return out
 
 
+def _append_loops(stmts: List[ast.stmt]) -> List[ast.stmt]:
+    """`x = []` directly followed by `for t in it: [if c:] x.append(e)`  ->  `x = [e for t in it [if c]]`"""
+    out: List[ast.stmt] = []
+    i = 0
+    while i < len(stmts):
+        s = stmts[i]
+        for fld in ("body", "orelse", "finalbody"):
+            b = getattr(s, fld, None)
+            if isinstance(b, list) and b and isinstance(b[0], ast.stmt):
+                setattr(s, fld, _append_loops(b))
+        if isinstance(s, ast.Try):
+            for h in s.handlers:
+                h.body = _append_loops(h.body)
+        nxt = stmts[i + 1] if i + 1 < len(stmts) else None
+        if isinstance(s, ast.Assign) and len(s.targets) == 1 and isinstance(s.targets[0], ast.Name) and isinstance(s.value, ast.List) \
+                and not s.value.elts and isinstance(nxt, ast.For) and not nxt.orelse:
+            x = s.targets[0].id
+            gens: List[ast.comprehension] = []
+            cur: ast.stmt = nxt
+            elt = None
+            ok = True
+            while ok:
+                if isinstance(cur, ast.For) and not cur.orelse and len(cur.body) == 1:
+                    gens.append(ast.comprehension(target=cur.target, iter=cur.iter, ifs=[], is_async=0))
+                    cur = cur.body[0]
+                elif isinstance(cur, ast.If) and not cur.orelse and len(cur.body) == 1 and gens:
+                    gens[-1].ifs.append(cur.test)
+                    cur = cur.body[0]
+                elif isinstance(cur, ast.Expr) and isinstance(cur.value, ast.Call) and isinstance(cur.value.func, ast.Attribute) \
+                        and cur.value.func.attr == "append" and isinstance(cur.value.func.value, ast.Name) and cur.value.func.value.id == x \
+                        and len(cur.value.args) == 1 and not cur.value.keywords and gens:
+                    elt = cur.value.args[0]
+                    break
+                else:
+                    ok = False
+            mentions_x = any(isinstance(n, ast.Name) and n.id == x for g in gens for part in [g.iter] + g.ifs for n in ast.walk(part)) \
+                or (elt is not None and any(isinstance(n, ast.Name) and n.id == x for n in ast.walk(elt)))
+            impure = any(isinstance(n, (ast.Yield, ast.YieldFrom, ast.Await)) for g in gens for part in [g.iter] + g.ifs for n in ast.walk(part))
+            if ok and elt is not None and not mentions_x and not impure:
+                comp = ast.copy_location(ast.ListComp(elt=elt, generators=gens), nxt)
+                out.append(ast.copy_location(ast.Assign(targets=[s.targets[0]], value=comp), s))
+                i += 2
+                continue
+        out.append(s)
+        i += 1
+    return out
+
+
 def normalise_function(fn: ast.FunctionDef, prog: Optional[Program] = None) -> None:
     """in-place normal form of one function (no helper inlining): see the module docstring, steps 2-5"""
     fn.body = _fix_ifs(fn.body)
+    fn.body = _append_loops(fn.body)
     counts = _stores(fn)
     for g in ast.walk(fn):
         if isinstance(g, (ast.Global, ast.Nonlocal)):
